@@ -61,9 +61,8 @@ def run(ck, ctx):
     # ---------------------------------------------------------------- R14.1 arity
     def r141():
         # (a) in the graph: the wrapper's assertions fold
-        asserts = [e for e in CG.effects if e.kind == "assert" and any("store_f" in f for f in e.funcs())]
+        asserts = [e for e in CG.effects if e.kind == "assert" and any(CG.in_decorators(f) for _s, f in e.chain)]
         for e in asserts:
-            stage = [f for f in e.funcs() if "store_f" not in f and f != "compute"]
             ck.ob("R14.1", f"storing wrapper assertion '{e.data.get('text')}' holds "
                   f"[{' > '.join(e.funcs()[-3:-1])} at {e.where()}]", e.data.get("folded"), e.node, e.funcs()[-1],
                   "number of column names equals the number of returned values" if e.data.get("folded") else
@@ -98,15 +97,30 @@ def run(ck, ctx):
 
     # ---------------------------------------------------------------- R14.2 store= the writer
     def r142():
-        calls = CG.calls(STORE_F)
-        ck.floor("R14.2", len(calls), 7, "stage calls that go through the storing wrapper")
-        for fi, site, loc, v, pc in calls:
-            s_ = loc.get("store")
-            ok = s_ is not None and s_.op == "Obj" and "StagedWriter" in s_.attr[0]
-            ck.ob("R14.2", f"stage call at {site[0]}:{site[1]} records through the staged writer", ok,
-                  s_ if s_ is not None else v, func, g.show(s_, 1) if s_ is not None else "store missing",
+        # every decorated stage call made by compute() must reach the staged writer: the decorated calls are the
+        # call records of utils/decorators.py wrappers directly below compute(); those that store are store_wrappers()
+        ws = CG.store_wrappers()
+        deco = [r for r in I.call_records if CG.in_decorators(r[0]) and len(r[1]) >= 2 and
+                r[1][-2][1] is not None and r[1][-2][1].qualname == "compute" and
+                any(not CG.in_decorators(r2[0]) and r2[0] not in CG.writer_functions() and r2[1][:len(r[1])] == r[1]
+                    and len(r2[1]) == len(r[1]) + 1 for r2 in I.call_records)]
+        storing = {w["chain"] for w in ws}
+        ck.floor("R14.2", len(ws), 7, "stage calls that go through the storing wrapper")
+        for r in deco:
+            if r[1] in storing:
+                continue
+            inner_store = any(w["chain"][:len(r[1])] == r[1] for w in ws)
+            if inner_store:
+                continue            # a plotting wrapper around a storing wrapper
+            site = r[1][-1][0]
+            ck.ob("R14.2", f"stage call at {site[0]}:{site[1]} records through the staged writer", False, r[4], func,
+                  "the decorated stage is called without a store: its columns never reach the table",
                   construct=f"compute: stage call without store= ({site[1]})")
-            stored_all(ck, CG, "R14.2", fi, site, loc, v, pc)
+        for w in ws:
+            site = w["site"]
+            ck.ob("R14.2", f"stage call at {site[0]}:{site[1]} records through the staged writer", True, w["value"],
+                  func, f"{len(w['cols'])} column effect(s)")
+            stored_all(ck, CG, "R14.2", w)
     ck.guard(r142, "R14.2")
 
     # ---------------------------------------------------------------- R14.3 row alignment per mode
@@ -366,38 +380,38 @@ def run(ck, ctx):
     ck.guard(r148, "R14.8")
 
 
-def stored_all(ck, CG, rule, fi, site, loc, v, pc=()):
-    """the storing wrapper hands ALL decorator names and ALL returned values, in order, to the store"""
+def stored_all(ck, CG, rule, w):
+    """the storing wrapper hands ALL decorator names and ALL values the stage returned, in order, to the store
+    (w: an entry of ComputeGraph.store_wrappers())"""
     I, g, st = CG.I, CG.I.g, CG.st
-    names = None
-    for e in CG.column_effects:
-        if any(s == site and f is fi for s, f in e.chain) and \
-                all(any(c is c2 and p == p2 for c2, p2 in e.pc) for c, p in pc):
-            pos, kws = call_args(e.node)
-            nm = kws.get("names")
-            vals = pos[0] if pos else None
-            deco = fi.parent.parent if fi.parent is not None else None
-            # names captured by the decorator closure
-            want = loc.get("names")
-            if want is None:
-                for cell in (loc,):
-                    pass
-            captured = None
-            for c in I.g.nodes:
-                pass
-            names = nm
-            rv = I.snapshot(loc.get("values"), st) if loc.get("values") is not None else None
-            n_ret = I.seq_len(rv) if rv is not None and rv.op in ("Tuple", "List") else (1 if rv is not None else None)
+    site, pc = w["site"], w["pc"]
+    for e in w["cols"]:
+        if not all(any(c is c2 and p == p2 for c2, p2 in e.pc) for c, p in pc):
+            continue
+        pos, kws = call_args(e.node)
+        nm = kws.get("names") or (pos[2] if len(pos) > 2 else None)
+        vals = pos[0] if pos else None
+        # the value the stage returned on this path
+        cands = [sv for _sf, sv in w["stages"] if sv is not None]
+        ok, detail = False, "no stage call found under the wrapper"
+        for rv0 in cands:
+            rv = I.snapshot(rv0, st)
+            n_ret = I.seq_len(rv) if rv.op in ("Tuple", "List") else 1
             n_names = len(nm.args) if nm is not None and nm.op in ("Tuple", "List") else None
             n_vals = len(vals.args) if vals is not None and vals.op in ("Tuple", "List") else None
-            ok = n_ret is not None and n_names == n_ret and n_vals == n_ret
-            if ok and rv.op in ("Tuple", "List"):
-                ok = all(g.same(I.snapshot(a, st), I.snapshot(b, st)) for a, b in zip(vals.args, rv.args))
-            ck.ob(rule, f"stage call at {site[0]}:{site[1]}: every returned value is stored, in order, under its "
-                  "column name", ok, e.node, "nss_result_store.store_f",
-                  f"{n_ret} returned, {n_names} names, {n_vals} values stored")
-            return
-    ck.ob(rule, f"stage call at {site[0]}:{site[1]} stores its columns", False, v, "nss_result_store.store_f",
+            detail = f"{n_ret} returned, {n_names} names, {n_vals} values stored"
+            good = n_ret is not None and n_names == n_ret and n_vals == n_ret
+            if good and rv.op in ("Tuple", "List"):
+                good = all(g.same(I.snapshot(a, st), I.snapshot(b, st)) for a, b in zip(vals.args, rv.args))
+            elif good:
+                good = g.same(I.snapshot(vals.args[0], st), rv)
+            if good:
+                ok = True
+                break
+        ck.ob(rule, f"stage call at {site[0]}:{site[1]}: every returned value is stored, in order, under its "
+              "column name", ok, e.node, "nss_result_store (wrapper)", detail)
+        return
+    ck.ob(rule, f"stage call at {site[0]}:{site[1]} stores its columns", False, w["value"], "nss_result_store (wrapper)",
           "no add_columns effect found under this wrapper invocation")
 
 
